@@ -62,6 +62,12 @@ def rules(ctx, F):
         else:
             ctx.bad("R3", "ts_parser__reuse_node:walk-keeps-pace", "ts_parser__reuse_node: %s" % (v.msg if v else "loop head not found"), {"path": s.render_path(v.path) if v else []})
         rule_skip(ctx, F, fn)
+        # a candidate is considered exactly when the old node starts at the parse position: `before` and `past`
+        # are strict tests (a non-strict one sends every candidate down the reject path)
+        ctx.gate("R7", fn, acc, [("a node starting at the parse position is not treated as lying ahead", "byte_offset > position", False),
+                                 ("…nor as lying behind", "byte_offset < position", False)], accept_desc="reusing the node")
+        adv_past = [pt for pt, c in fn.calls() if c.get("fn") in ("reusable_node_advance", "reusable_node_descend")]
+        brk = [pt for pt, n in find(fn, "end_byte_offset <= position")]
     fn = ctx.need_fn(F, "ts_parser__get_cached_token", "R1")
     if fn:
         feasible(ctx, "R1", fn, [pt for pt, n in find(fn, "ts_subtree_retain(_)")], "the retain-and-return of the cached token")
